@@ -53,6 +53,13 @@ class Meta(type):
     def __contains__(cls, k):
         return k == "m"
 
+    # classes ranked through their metaclass (Low < High style); the classes themselves define comparisons for INSTANCES
+    def __lt__(cls, other):
+        return isinstance(other, type) and cls.__name__ < other.__name__
+
+    def __le__(cls, other):
+        return isinstance(other, type) and cls.__name__ <= other.__name__
+
 
 class Vec(metaclass=Meta):
     """user class with operator overloads, properties, __call__, context manager"""
@@ -190,6 +197,12 @@ class Color(metaclass=Meta):
 
     def size(self):
         return len(self.xs)
+
+    def __eq__(self, other):          # for instances: compares contents
+        return isinstance(other, Color) and self.xs == other.xs
+
+    def __hash__(self):
+        return hash(tuple(self.xs))
 
 
 def plain_small(rng):
@@ -348,6 +361,11 @@ def steps_cls(rng, mode):
         ("name", lambda o, e: o.__name__), ("call_bad", lambda o, e: o(n).boom("k")), ("inst_len", lambda o, e: o(n, n, n).size()), ("attr", lambda o, e: o.RED),
         ("missing", lambda o, e: o.nosuch), ("meta_len", lambda o, e: len(o)), ("meta_getitem", lambda o, e: o["x"]),
         ("meta_contains", lambda o, e: ("m" in o, "z" in o)), ("inst_str", lambda o, e: str(o(n))), ("inst_repr", lambda o, e: repr(o(n, 1))),
+        # comparing class objects: the operator is looked up on the TYPE of the left operand (here the metaclass), never on the
+        # class itself, whose __eq__ / __lt__ are meant for its instances
+        ("cls_eq_self", lambda o, e: o == o), ("cls_ne_self", lambda o, e: o != o), ("cls_in_tuple", lambda o, e: o in (1, o)),
+        ("cls_index", lambda o, e: [0, o].index(o)), ("cls_eq_value", lambda o, e: o == 5), ("cls_rank_lt", lambda o, e: o < o),
+        ("cls_rank_le", lambda o, e: o <= o), ("cls_hash_stable", lambda o, e: hash(o) == hash(o)),
     ]
     return steps
 
